@@ -779,7 +779,7 @@ pub fn run() {
     // "depth gates" when the probabilities add up to exactly 1 (dyadic values, so the sum is
     // exact in f32 whatever the order): a million gates per circuit, so that events of
     // probability 2^-25 per gate are seen; only counts and arities are inspected
-    par_cases("random-circuit-huge-depth", t.pick(128usize, 2_000usize), |r, i| {
+    par_cases("random-circuit-huge-depth", t.pick(256usize, 2_000usize), |r, i| {
         let c = ctx();
         let depth = 1_000_000usize;
         let qubits = 2 + r.below(3);
